@@ -2,6 +2,7 @@
 // while it sits in that thread's run queues (ghost monitor, from SCHEDULE/STEAL/SWITCH_PRE events).
 #include "fb_common.h"
 #include "fiber_mutex.h"
+#include "fiber_signal.h"
 
 static _Atomic int stop_flag;
 static _Atomic long victim_runs, flag_set[64];
@@ -78,6 +79,35 @@ static void* creator(void* a) {
   return NULL;
 }
 
+// hand-off pairs: two fibers that never yield but keep waking each other through blocking calls (raise/wait ping-pong). Whatever
+// the scheduler does with a woken fiber, the fibers sitting in fiber_yield() on the same thread still get their turn.
+#define MAXPAIRS 8
+static fiber_signal_t ho_ping[MAXPAIRS], ho_pong[MAXPAIRS];
+static _Atomic int ho_done[MAXPAIRS];
+static vp_counter_t* c_handoffs;
+static void* handoff_a(void* a) {
+  fb_slot_t* s = (fb_slot_t*)a;
+  const int k = (int)s->c;
+  while (!atomic_load(&stop_flag)) {
+    fiber_signal_raise(&ho_ping[k]);
+    FB_BLOCKING(s, "C10 fiber_signal_wait (hand-off pair)", fiber_signal_wait(&ho_pong[k]));
+    vp_add(c_handoffs, 1);
+  }
+  atomic_store(&ho_done[k], 1);
+  fiber_signal_raise(&ho_ping[k]);
+  return NULL;
+}
+static void* handoff_b(void* a) {
+  fb_slot_t* s = (fb_slot_t*)a;
+  const int k = (int)s->c;
+  for (;;) {
+    FB_BLOCKING(s, "C10 fiber_signal_wait (hand-off pair)", fiber_signal_wait(&ho_ping[k]));
+    if (atomic_load(&ho_done[k])) break;
+    fiber_signal_raise(&ho_pong[k]);
+  }
+  return NULL;
+}
+
 static void* root(void* x) {
   (void)x;
   const int trials = (int)vp_param("trials", 12);
@@ -87,6 +117,7 @@ static void* root(void* x) {
   c_victim_runs = vp_counter("yield_victim_runs");
   c_created_midrun = vp_counter("yield_fibers_created_midrun");
   c_pollers_done = vp_counter("yield_polling_loops_terminated");
+  c_handoffs = vp_counter("yield_handoffs_between_blocking_pairs");
   uint64_t rng = vp_mix(vp_cfg.seed, 1010);
   long maxbypass_short = 0, maxbypass_long = 0;
   for (trial = 0; trial < trials; ++trial) {
@@ -102,6 +133,7 @@ static void* root(void* x) {
     const int NB = (int)(vp_rand(&rng) % 4);
     const int NC = (int)(vp_rand(&rng) % 3);
     const int NP = (int)(vp_rand(&rng) % 6);
+    const int NH = (trial % 2) ? 1 + (int)(vp_rand(&rng) % MAXPAIRS) : 0;
     atomic_store(&stop_flag, 0);
     fiber_mutex_init(&mu);
     fb_slots_reset();
@@ -120,6 +152,13 @@ static void* root(void* x) {
     for (i = 0; i < NP; ++i) sl[n++] = fb_spawn(setter, (void*)(intptr_t)i);
     for (i = 0; i < NB; ++i) sl[n++] = fb_spawn(blocker, NULL);
     for (i = 0; i < NC; ++i) sl[n++] = fb_spawn(creator, NULL);
+    for (i = 0; i < NH; ++i) {
+      fiber_signal_init(&ho_ping[i]);
+      fiber_signal_init(&ho_pong[i]);
+      atomic_store(&ho_done[i], 0);
+      sl[n++] = fb_spawn(handoff_a, (void*)(intptr_t)i);
+      sl[n++] = fb_spawn(handoff_b, (void*)(intptr_t)i);
+    }
     // victims finish only if they are not starved; then release the forever-yielders
     for (i = nv0; i < nv0 + NV; ++i) fiber_join(sl[i]->fiber, NULL);
     atomic_store(&stop_flag, 1);
